@@ -22,7 +22,7 @@ CHECKS = {
  "C03": dict(
    level="model_checking",
    text="Udp models the datagram path of udp / sudp proxies: bounded drop-when-full queues on both ends, one ordered work connection that may be replaced, the client's per-user-address socket map with idle expiry, reply tagging by socket owner; TLC exhaustively checks NoForgery, AtMostOnce, SocketPerUser, SocketOwner, ReplyRouting, RepliesAnswered (2 users x 2 datagrams, queue capacity 1, one replacement: 149k states), the liveness properties Arrives / Answered under weak fairness without loss, and that the deviation 'reply tagged with the latest user' violates ReplyRouting. Real frps / frpc pairs are then driven with several user sockets per proxy and logging echo backends through light-load, tiny-datagram, burst, cut-and-recover phases; every send / backend receive / backend reply / user receive is replayed by TLC against the observable variables of Udp with the invariants evaluated after every event and the light-load obligation at the end of every light phase (Trace_Udp).",
-   note="Trusted: TLC, the self-describing payloads and the logging of the driver (send logged before the datagram leaves, receive after it arrived), the loopback interface. Sampled configurations (6 quick, 16 thorough); socket idle expiry (30 s) is modelled but not driven.",
+   note="Trusted: TLC, the self-describing payloads and the logging of the driver (send logged before the datagram leaves, receive after it arrived), the loopback interface. Sampled configurations (6 quick, 16 thorough); socket idle expiry (30 s) is driven in the first configuration (4 in the thorough tier).",
    technique="TLA+ spec Udp model-checked with TLC (safety + liveness + deviation) + trace validation of real frps/frpc datagram histories (Trace_Udp)",
    design="4 (C03), 3.6"),
  "C01": dict(
